@@ -1,4 +1,5 @@
 import HermesProofs.Calendar
 import HermesProofs.Partition
 import HermesProofs.RatInst
+import HermesProofs.Substeps
 import HermesProofs.Water
